@@ -172,13 +172,18 @@ def run(ctx):
             ll[rng.integers(0, N)] = -np.inf
         s["ln_prior"] = lp
         s["ln_likelihood"] = ll
+        has_post = bool(rng.random() < 0.4)
+        if has_post:
+            # e.g. samples that came back from MCMC carry a stored ln_posterior (of another model): MAP_sample is
+            # defined on ln_prior + ln_likelihood
+            s["ln_posterior"] = rng.normal(size=N) * 5
         post = lp + ll
         ties = int(np.sum(post == post.max()))
         try:
             row, idx = sa.MAP_sample(s, return_index=True)
             row2 = sa.MAP_sample(s)
             ctx.evaluations += 1
-            ctx.distinct.add(repr(("map", N, ties > 1, bool(np.isinf(ll).any()))))
+            ctx.distinct.add(repr(("map", N, ties > 1, bool(np.isinf(ll).any()), has_post)))
             ok = (post[int(idx)] == post.max()
                   and float(np.squeeze(row["P"].value)) == float(s["P"].value[int(idx)])
                   and float(np.squeeze(row2["P"].value)) == float(np.squeeze(row["P"].value))
